@@ -59,6 +59,15 @@ def rpc_call(xid=0x12345678, rpcvers=2, prog=100000, vers=2, proc=3, cred=b"", v
     return m
 
 
+SMB1_NEG = bytes.fromhex("00000054ff534d4272000000001843c80000000000000000000000000000feff0000000000310002") + \
+    b"NT LANMAN 1.0\x00\x02NT LM 0.12\x00\x02SMB 2.002\x00\x02SMB 2.???\x00"
+SMB2_NEG = bytes.fromhex("00000068fe534d42400000000000000000001f0000000000000000000700000000000000000000000000"
+                         "000000000000000000000000000000000000000000000000000024000200010000007f000000"
+                         "a0a1a2a3a4a5a6a7a8a9aaabacadaeaf780000000300000002021002")
+SMB2_SETUP = bytes.fromhex("00000060fe534d42400000000000000001001f00000000000000000001000000000000000000000000000000000000000000000000000000000000000000000000000000"
+                           "1900000101000000000000005800080000000000000000006006626c6f623132")
+
+
 def app_seeds():
     """(name, payload, works over tcp?, works over udp?)"""
     cr = stun_attr(3, struct.pack("!I", 2))
@@ -79,6 +88,9 @@ def app_seeds():
         ("rpc-udp", rpc_call(xid=0xa1b2c3d4), False, True),
         ("rpc-tcp", rpc_call(xid=0xa1b2c3d4, tcp=True), True, False),
         ("rpc-dump-v4", rpc_call(xid=0xa1b2c3d4, vers=4, proc=4), False, True),
+        ("smb1-negotiate", SMB1_NEG, True, True),
+        ("smb2-negotiate", SMB2_NEG, True, True),
+        ("smb2-session-setup", SMB2_SETUP, True, True),
         ("junk", b"\x01\x02\x03hello", True, True),
         ("empty", b"", True, True),
     ]
@@ -229,6 +241,16 @@ def hostile_requests(rng):
                patch(syn, 14 + l3 + 18, b"\xff\xff")]
         for doff in (6, 8, 15):
             fr.append(net.frame_tcp(s, d, 40000 + doff, 80, 7, 0, 0x02, doff=doff, options=b"\x01" * (4 * (doff - 5))))
+        # well-formed options with boundary values: MSS 0 / 1 / 536 / 1460 / 65535, window scale 0 / 14 / 255, SACK permitted,
+        # timestamps, an option whose length byte lies, an unknown kind, end-of-list in the middle
+        k = 0
+        for opts in [b"\x02\x04" + struct.pack("!H", m) for m in (0, 1, 536, 1460, 65535)] + \
+                    [b"\x03\x03" + bytes([w]) + b"\x01" for w in (0, 14, 255)] + \
+                    [b"\x04\x02\x01\x01", b"\x08\x0a" + bytes(8) + b"\x01\x01", b"\x02\x04\x00\x00\x03\x03\x0e\x04\x02\x01\x01\x01",
+                     b"\x02\xff\x05\xb4", b"\x02\x00\x05\xb4", b"\xfe\x04\xde\xad", b"\x00\x02\x04\x05", b"\x02\x03\x05\x01"]:
+            k += 1
+            pad = opts + b"\x01" * ((4 - len(opts) % 4) % 4)
+            fr.append(net.frame_tcp(s, d, 40100 + k, 80, 7, 0, 0x02, doff=5 + len(pad) // 4, options=pad))
         for doff in (5, 7, 15):
             hs = handshake((5, 6), s, d, 41000 + doff, 80, [http_req()], doff=doff, options=b"\x01" * (4 * (doff - 5)))
             fr += hs
